@@ -23,13 +23,14 @@ CHECKS = {
  "C01": ("model_checking", "2-3", "All wire assignments of the complete built leaf circuit: 32-bit ranges, fee bound and the integer fee inequality are consequences of the constraint system (UNSAT of constraints ∧ ¬goal), vacuity-guarded."),
  "C02": ("model_checking", "2-3", "All wire assignments of the leaf circuit: nullifier/address bindings to one shared secret and the leaf's count, hash as uninterpreted sponge spec."),
  "C03": ("model_checking", "2-3", "All wire assignments: header preimage order, block-number and tree-root bindings, depth/position ranges, and the 16-level Merkle walk via per-level solver lemmas at cut points."),
+ "C05": ("model_checking", "3 (C05)", "Leaf constraint-system half of C05: the 21 public inputs are the documented wire classes in the documented order, and every honest statement satisfying the spec relation satisfies every circuit constraint (hints Skolemised); prover/verifier run and Vec-shape error paths are outside."),
  "C06": ("model_checking", "3 (C06)", "Private wrapper IR for N<=2 (quick) / N<=3 (thorough): every public output equals the transcribed spec O(x) (header, dummy-masked first-occurrence grouping, sorted replacement-aware nullifier region, zero padding) for all child statements, preimages and hint wires."),
- "C07": ("model_checking", "3 (C07)", "Private wrapper IR N<=3 (quick) / N<=4 (thorough): satisfiable only if compatibility + replay-freedom + 32-bit grouped sums hold ('only if' direction for all witnesses; 'if' direction via validated honest witnesses, see DESIGN)."),
+ "C07": ("model_checking", "3 (C07)", "Private wrapper IR N<=3 (quick) / N<=4 (thorough): satisfiable iff compatibility + replay-freedom + 32-bit grouped sums: 'only if' for all witnesses, 'if' by Skolemising the hint wires with the digits they decompose."),
  "C08": ("model_checking", "3 (C08)", "Private wrapper IR N<=3/4: conservation of value asked directly of the circuit's outputs (not of the spec transcription)."),
  "C09": ("model_checking", "3 (C09)", "Circuit output = O(x) re-proved on the IR (N<=2 quick / N<=3 thorough), two-witness dummy-content independence on the IR, and all N! slot permutations of O checked on the spec for N<=3; one recorded known finding."),
  "C10": ("model_checking", "3 (C10)", "Self-composition (two witness copies over shared inputs) on private wrapper, public wrapper, sort, less-than and digest-equality gadgets: outputs cannot differ."),
  "C12": ("model_checking", "3 (C12/C13)", "Public wrapper IR for (M,N) up to (3,2) quick / (4,4) thorough: every output position equals the order-preserving forwarding spec."),
- "C13": ("model_checking", "3 (C12/C13)", "Public wrapper IR: satisfiable only if real inners agree on block hash, asset and fee; vacuity witnesses show dummies and other fields are unconstrained."),
+ "C13": ("model_checking", "3 (C12/C13)", "Public wrapper IR: satisfiable iff real inners agree on block hash, asset and fee (both directions); vacuity witnesses show dummies and other fields are unconstrained."),
  "C36": ("model_checking", "3 (C36)", "M private-wrapper IR copies chained into the public-wrapper IR in one solver context: end-to-end value conservation and nullifier-set statements for (M,N) in {(1,2),(2,1),(2,2)} (+(3,2),(2,3) thorough)."),
  "C30": ("model_checking", "3 (C30)", "Per (constant,width) instance over every width 1..64: for all field elements and all hint assignments the gadget implies x<2^w and output=(c<x); alias counterexamples are replayed with adversarial hint wires."),
  "C31": ("model_checking", "3 (C31)", "For list lengths n<=3 (quick) / n<=4 (thorough): every satisfying assignment of the sort gadget has sorted output that is a permutation of the input."),
